@@ -8,4 +8,7 @@ CHECKS = {
     "C04": ps.check_C04,
     "C05": ps.check_C05,
     "C06": ps.check_C06,
+    "C07": ps.check_C07,
+    "C10": ps.check_C10,
+    "C11": ps.check_C11,
 }
